@@ -357,7 +357,7 @@ def rule_schedule(rep, repo):
 def polarity_with_pow(nf, ev):
   """pwa.polarity extended with pow(u, e): increasing in u for u >= 0 and a
   positive exponent."""
-  orig = pwa.atom_polarity
+  orig = pwa._atom_polarity
 
   def ap(a, ev_):
     if a[0] == "app" and a[1] == "pow":
@@ -370,11 +370,11 @@ def polarity_with_pow(nf, ev):
         return pwa.polarity(u, ev_)
       return "?"
     return orig(a, ev_)
-  pwa.atom_polarity = ap
+  pwa._atom_polarity = ap
   try:
     return pwa.polarity(nf, ev)
   finally:
-    pwa.atom_polarity = orig
+    pwa._atom_polarity = orig
 
 
 def rule_time(rep, repo):
